@@ -21,10 +21,14 @@ pub fn run_slices(ctx: &Ctx, runs: Vec<SliceRun>, required: &[&str], rule: &str,
     let mut levels = Vec::new();
     let mut exhaustive = true;
     let n_runs = runs.len().max(1);
-    for r in runs {
+    // the wall budget is shared in proportion to 3^depth of the slices still to run (the small
+    // special-purpose slices need a fraction of what the main slices need), and what an earlier slice
+    // leaves unused goes to the later ones
+    let weights: Vec<f64> = runs.iter().map(|r| 3f64.powi(r.depth as i32)).collect();
+    for (ri, r) in runs.into_iter().enumerate() {
         let m = AgentModel { slice: r.slice.clone() };
         let depth = std::env::var("VERIF_DEPTH").ok().and_then(|d| d.parse::<usize>().ok()).unwrap_or(r.depth);
-        let lim = Limits { max_depth: depth, max_states: ctx.tier.pick(3_000_000, 12_000_000), budget_s: ctx.budget_s() / n_runs as f64 + ctx.elapsed() };
+        let lim = Limits { max_depth: depth, max_states: ctx.tier.pick(3_000_000, 12_000_000), budget_s: ((ctx.budget_s() - ctx.elapsed()).max(1.0) * weights[ri] / weights[ri..].iter().sum::<f64>()).max(ctx.budget_s() / (4 * n_runs) as f64) + ctx.elapsed() };
         let res = explore(&m, &lim, ctx.start);
         states += res.states;
         transitions += res.transitions;
@@ -107,6 +111,21 @@ pub fn c05(ctx: &Ctx) -> Report {
         s.configs = vec![0, 1];
         s.set_remote = vec![1];
         runs.push(SliceRun { slice: s, depth: ctx.tier.pick(7, 9) });
+        // an agent built with .remote_addr(P) (P a destination / another peer): the stored address
+        // changes nothing about which responses complete which transactions
+        let mut s = base_slice("built with remote_addr", "C05", tcp);
+        s.ids = 2;
+        s.max_live = 2;
+        s.max_sends = 2;
+        s.send = vec![(0, Seal::None, 0), (1, Seal::None, 1)];
+        s.send_other = vec![(1, 2)];
+        s.poll_whens = vec![When::Wake];
+        s.resp = vec![(2, Auth::None, 0), (2, Auth::None, 1), (3, Auth::None, 2)];
+        s.resp_unknown = true;
+        s.incoming = vec![(0, 0), (0, 2)];
+        s.cancel = true;
+        s.rebuild = vec![0, 2];
+        runs.push(SliceRun { slice: s, depth: ctx.tier.pick(6, 8) });
     }
     let req = ["timed out", "cancelled by cancel()", "completed after cancel_retransmissions()", "response delivered", "id re-sent after completion", "duplicate send refused", "response after timeout dropped", "two requests due at one poll, non-default order taken"];
     run_slices(ctx, runs, &req, "all call histories up to the depth over {send (2 shapes, duplicate ids), send indication, poll at now/wake/wake+700ms x all map-iteration orders, responses (unsigned, SHA-1 under R1/R2) for live, completed and unknown ids, incoming request with a live id, cancel, cancel_retransmissions, configure (1ms,0,0)/(7ms,3,0), set remote credentials}, <= 3 live, <= 4 sends, UDP and TCP; from every unique state a drain to completion; plus single-transaction schedules to completion with one of {response, error response from another source, response for an unknown id, duplicate send, incoming request / indication with the same id, indication sent, cancel, cancel_retransmissions} at every step index x 2 poll patterns x 6 base configurations (all in thorough); distinct_nontrivial = unique states", Some(crate::agent::schedule::completion_sweep(ctx).merge(crate::agent::scale::sweep("C05", ctx.tier == Tier::Thorough))))
@@ -163,9 +182,10 @@ pub fn c07(ctx: &Ctx) -> Report {
         s.max_sends = 2;
         s.send = vec![(0, Seal::Sha1, 0), (0, Seal::Sha256, 0)];
         s.poll_whens = vec![When::Wake];
-        s.resp = vec![(2, Auth::None, 0), (2, Auth::Sha1(0), 0), (2, Auth::Sha1(1), 0), (2, Auth::Sha1(3), 0), (2, Auth::Sha256(3), 0), (3, Auth::Sha256(1), 0), (2, Auth::Sha256Trunc(1), 0), (2, Auth::Sha256Trunc(3), 0), (2, Auth::Sha256Flipped(1), 0)];
+        s.resp = vec![(2, Auth::None, 0), (2, Auth::Sha1(0), 0), (2, Auth::Sha1(1), 0), (2, Auth::Sha1(3), 0), (2, Auth::Sha256(3), 0), (3, Auth::Sha256(1), 0), (2, Auth::Sha256Trunc(1), 0), (2, Auth::Sha256Trunc(3), 0), (2, Auth::Sha256Flipped(1), 0), (2, Auth::MixedSha1Good(1), 0), (2, Auth::MixedSha256Good(1), 0)];
         s.set_remote = vec![1, 3];
         s.set_local = vec![0, 3];
+        s.rebuild = vec![0];
         runs.push(SliceRun { slice: s, depth: ctx.tier.pick(6, 8) });
     }
     let req = ["response delivered", "forged or unauthenticated response dropped, state unchanged (self-loop)", "genuine SHA-1 response delivered to an authenticated request", "genuine SHA-256 response delivered to an authenticated request", "genuine SHA-1+SHA-256 response delivered to an authenticated request", "timed out"];
@@ -199,13 +219,14 @@ pub fn c15(ctx: &Ctx) -> Report {
         s.send = vec![(0, Seal::None, 0), (1, Seal::Sha1, 0)];
         s.send_other = vec![(1, 2)];
         s.poll_whens = vec![When::Wake, When::Far];
-        s.incoming = vec![(0, 0), (1, 2)];
+        s.incoming = vec![(0, 0), (1, 2), (4, 3), (5, 4), (6, 5), (7, 6)];
         s.resp = vec![(2, Auth::None, 0), (2, Auth::Sha1(1), 1), (2, Auth::Sha1(2), 1)];
         s.set_remote = vec![1, 2, 3];
         s.set_local = vec![0, 3];
         s.configs = vec![0, 1];
         s.cancel = true;
         s.cancel_rtx = true;
+        s.rebuild = vec![0, 2];
         s.drain = false;
         runs.push(SliceRun { slice: s, depth: ctx.tier.pick(6, 8) });
     }
